@@ -26,7 +26,7 @@ RULE = ("adversarial strings built from {<, >, &, ', \", /, =, space, newline, a
         "hand-written attack strings; tojson: those strings nested in lists / dicts (as keys too) with numbers, "
         "booleans, None; xmlattr: dicts of 1-2 items over adversarial keys and values (plain, Markup, None); urlize: "
         "texts combining URL-like, e-mail-like and markup fragments with punctuation x rel / target / trim_url_limit "
-        "/ extra_schemes; rows: a safe input x adversarial plain arguments. distinct = (filter, arguments, input); "
+        "/ extra_schemes (argument and policy), every URL-like word also next to each kind of Unicode whitespace (CR, CRLF, FF, VT, NBSP, U+2028/9, FS..US, NEL, U+3000); rows: a safe input x adversarial plain arguments. distinct = (filter, arguments, input); "
         "non-trivial = the input or an argument contains a metacharacter.")
 
 ALPHA = ["<", ">", "&", "'", '"', "/", "=", " ", "\n", "a", "\\", " ", "é"]
@@ -144,6 +144,8 @@ def run(ctx):
     ctx.proof("C24")
     env = jinja2.Environment()
     aenv = jinja2.Environment(autoescape=True)
+    penv = jinja2.Environment(autoescape=True)
+    penv.policies["urlize.extra_schemes"] = ["tel:", "ftp:"]
     S = strings(ctx)
 
     # ---------------- escape / forceescape / replace4
@@ -270,6 +272,17 @@ def run(ctx):
         texts.append(a + " " + b)
         if len(texts) % 3 == 0:
             texts.append(a + "\n" + b + "\t" + a)
+    # every kind of whitespace re.split(r"(\\s+)") separates words at, around URL-like words
+    WS = ["\r\n", "\r", "\x0c", "\x0b", "\xa0", "\u2028", "\u2029", "\x1c", "\x1f", "\x85", "\u3000", "\u2003", "\t", "\n"]
+    linkish = ["tel:+1-555-0100", "tel:123", "ftp://host/a", "www.example.com", "http://x.org/p", "foo@example.com",
+               "mailto:foo@example.com", "javascript:x", "example.org"]
+    ws_texts = []
+    for i, w in enumerate(WS):
+        for j, a in enumerate(linkish):
+            b = linkish[(i + j + 1) % len(linkish)]
+            ws_texts.append(f"call {a}{w}or {b}")
+            if (i + j) % 3 == 0:
+                ws_texts.append(f"{w}{a}{w}{b}{w}")
     texts += S[:: max(1, len(S) // 150)]
     opts = [(None, None, None, None), ('no"follow <x>', "_blank", None, None), (None, '"><script>', 12, None),
             ("nofollow", None, 3, ["tel:", "ftp:"]), (None, None, None, ["javascript:"])]
@@ -280,6 +293,9 @@ def run(ctx):
     # character in the sense of the theorem (Clean = no '<', '>', '"', "'"); recorded as an observation.
     for t, lim in (("http://a.co/?x=1&y=2", 18), ("http://a.co/<b>", 14), ("http://a.co/'q'", 13), ("www.x.org/a&b&c", 12)):
         plan.append((t, (None, None, lim, None)))
+    for t in ws_texts:
+        plan.append((t, (None, None, None, None)))
+        plan.append((t, ("nofollow", "_blank", None, ["tel:", "ftp:", "javascript:"])))
     for t, (rel, target, limit, schemes) in plan:
         if True:
             case = {"filter": "urlize", "text": t, "rel": rel, "target": target, "trim_url_limit": limit, "extra_schemes": schemes}
@@ -293,6 +309,15 @@ def run(ctx):
                 ctx.reject(case, f"urlize raised {type(ex).__name__}", None)
                 continue
             w = judge_urlize(t, r, rel, target, limit, escape)
+            if w is None and schemes is None:
+                try:
+                    r3 = penv.call_filter("urlize", t, (), {"trim_url_limit": limit, "target": target, "rel": rel})
+                    rel3 = " ".join(sorted(set((rel or "").split()) | {"noopener"})) or None
+                    w = judge_urlize(t, str(r3), rel3, target, limit, escape)
+                    if w:
+                        w = "filter with policy urlize.extra_schemes: " + w
+                except Exception as ex:  # noqa: BLE001
+                    w = f"filter with policy urlize.extra_schemes raised {type(ex).__name__}"
             if limit is not None and re.search(r"&[#a-z0-9]{0,5}\.\.\.</a>", str(r)):
                 ctx.extra.setdefault("urlize_trim_splits_entity", [])
                 if len(ctx.extra["urlize_trim_splits_entity"]) < 4:
